@@ -467,3 +467,115 @@ Proof.
   unfold dom_minkey, dom_key, dom_string0, dom_string, dom_len. cbn.
   repeat split; try discriminate; try reflexivity; lia.
 Qed.
+
+(* ---------- ReadUTF: the allocation is bounded by the uint16 itself ---------- *)
+
+Lemma wf_zeros n : wf_bytes (zeros n).
+Proof. unfold zeros, wf_bytes. induction (N.to_nat n) as [|k IH]; cbn [repeat]; constructor; [lia | exact IH]. Qed.
+
+Lemma len_zeros n : len (zeros n) = n.
+Proof. unfold len, zeros. rewrite repeat_length. lia. Qed.
+
+Lemma rd_read_buf n s b r : rd_read n s = Ok (b, r) -> wf_bytes s -> len b = n /\ wf_bytes b.
+Proof.
+  unfold rd_read. destruct s as [|x s']; [discriminate|].
+  destruct (N.leb_spec n (len (x :: s'))) as [L|L]; intros H W; inversion H; subst; clear H.
+  - split; [unfold take, len in *; rewrite firstn_length; lia | apply wf_firstn; exact W].
+  - rewrite app_comm_cons. split; [rewrite len_app, len_zeros; lia|].
+    apply Forall_app. split; [exact W | apply wf_zeros].
+Qed.
+
+Lemma alloc_bounded_utf_lemma fx1 s n r : wf_bytes s -> read_uint fx1 2 s = Ok (n, r) -> n < 65536.
+Proof.
+  intros W. assert (B : forall b, len b = 2 -> wf_bytes b -> be_val b < 65536).
+  { intros b Lb Wb. pose proof (be_val_lt b Wb) as H. rewrite Lb in H. exact H. }
+  destruct fx1; unfold read_uint, spec_read_uint, impl_read_uint.
+  - destruct (rd_full 2 s) as [[b r']|e] eqn:E; [|discriminate]. cbn [bind]. intro H. inversion H; subst.
+    destruct (rd_full_ok_len _ _ _ _ E) as [Lb Es]. apply B; [exact Lb|].
+    rewrite Es in W. apply Forall_app in W. tauto.
+  - destruct (rd_read 2 s) as [[b r']|e] eqn:E; [|discriminate]. cbn [bind]. intro H. inversion H; subst.
+    destruct (rd_read_buf _ _ _ _ E W) as [Lb Wb]. apply B; assumption.
+Qed.
+
+(* ---------- the counted loops: fuel is not a restriction ---------- *)
+
+Definition progress {A} (d : dec_t A) : Prop := forall s a r, d s = Ok (a, r) -> (length r < length s)%nat.
+Definition noninc {A} (d : dec_t A) : Prop := forall s a r, d s = Ok (a, r) -> (length r <= length s)%nat.
+
+Lemma progress_noninc {A} (d : dec_t A) : progress d -> noninc d.
+Proof. intros P s a r H. apply P in H. lia. Qed.
+
+(* any fuel above the number of remaining bytes gives the same result: read_counted's choice
+   (1 + remaining bytes) models the unbounded Go loop *)
+Lemma read_n_fuel {A} (d : dec_t A) : progress d ->
+  forall f1 f2 n s, (length s < f1)%nat -> (length s < f2)%nat -> read_n d f1 n s = read_n d f2 n s.
+Proof.
+  intros P. induction f1 as [|f1 IH]; intros f2 n s L1 L2; [lia|].
+  destruct f2 as [|f2]; [lia|]. cbn [read_n]. destruct (n =? 0); [reflexivity|].
+  destruct (d s) as [[a r]|e] eqn:E; [|reflexivity]. cbn [bind]. apply P in E.
+  rewrite (IH f2 (n - 1) r) by lia. reflexivity.
+Qed.
+
+Lemma varint_dec_progress f : forall i acc s u n r,
+  VarInt.dec_fuel f i acc s = VarInt.Ok (u, n, r) -> (length r < length s)%nat.
+Proof.
+  induction f as [|f IH]; intros i acc s u n r H; [discriminate|].
+  cbn [VarInt.dec_fuel] in H. destruct s as [|b s]; [discriminate|].
+  destruct (5 <=? i); [discriminate|].
+  destruct (N.land b 128 =? 0).
+  - inversion H; subst. cbn [length]. lia.
+  - apply IH in H. cbn [length]. lia.
+Qed.
+
+Lemma progress_varint : progress read_varint.
+Proof.
+  intros s a r. unfold read_varint, VarInt.dec.
+  destruct (VarInt.dec_fuel 6 0 0 s) as [[[u n] r']|[|]] eqn:E; try discriminate.
+  intro H. inversion H; subst. eapply varint_dec_progress. exact E.
+Qed.
+
+Lemma noninc_rd_full n : noninc (rd_full n).
+Proof.
+  intros s b r H. destruct (rd_full_ok_len _ _ _ _ H) as [_ ->]. rewrite app_length. lia.
+Qed.
+
+Lemma progress_bind {A B} (d : dec_t A) (k : A -> dec_t B) :
+  progress d -> (forall a, noninc (k a)) -> progress (fun s => bind (d s) (fun a r => k a r)).
+Proof.
+  intros P Nk s b r. destruct (d s) as [[a r1]|e] eqn:E; [|discriminate]. cbn [bind]. intro H.
+  apply P in E. apply Nk in H. lia.
+Qed.
+
+Lemma progress_string max : progress (read_string_max max).
+Proof.
+  intros s b r. unfold read_string_max, len_string.
+  destruct (read_varint s) as [[l r1]|e] eqn:E; [|discriminate]. cbn [bind].
+  destruct (l <? 0)%Z; [discriminate|]. destruct (max * 4 <? l)%Z; [discriminate|]. cbn [bind].
+  intro H. apply progress_varint in E. apply noninc_rd_full in H. lia.
+Qed.
+
+Lemma progress_key : progress read_key.
+Proof.
+  intros s k r. unfold read_key. destruct (read_string s) as [[str r1]|e] eqn:E; [|discriminate].
+  cbn [bind]. cbv zeta. destruct (validate_key (parse_identifier_key str)); [|discriminate].
+  intro H. inversion H; subst. eapply progress_string. exact E.
+Qed.
+
+Lemma noninc_sig : noninc read_sig.
+Proof.
+  intros s b r. unfold read_sig, read_bool, dmap, read_uint8, rd_byte.
+  destruct s as [|x s']; [discriminate|]. cbn [bind].
+  destruct (negb (x =? 0)).
+  - intro H. apply progress_string in H. cbn [length]. lia.
+  - intro H. inversion H; subst. cbn [length]. lia.
+Qed.
+
+Lemma progress_property : progress read_property.
+Proof.
+  intros s p r. unfold read_property, dec_pair.
+  destruct (read_string s) as [[a r1]|e] eqn:E1; [|discriminate]. cbn [bind].
+  destruct (read_string r1) as [[b r2]|e] eqn:E2; [|discriminate]. cbn [bind].
+  destruct (read_sig r2) as [[c r3]|e] eqn:E3; [|discriminate]. cbn [bind].
+  intro H. inversion H; subst.
+  apply progress_string in E1. apply progress_string in E2. apply noninc_sig in E3. lia.
+Qed.
